@@ -28,6 +28,9 @@ def cases(tier, seed):
     n_s, n_t = BOUNDS[tier]
     for m in sp.structures_upto(n_s):
         yield ('S', m)
+    from . import families
+    for m in families.models():
+        yield ('S', m)
     # typed features / feature cardinalities: full product on small carriers
     for n in range(1, n_t + 1):
         for m in sp.structures(n):
